@@ -184,8 +184,10 @@ impl HdlcDeframer {
                     return Ok(State::Unsynced(0xff));
                 }
                 if bits.len() < 7 {
-                    // Too short, not even zero bytes.
-                    return Ok(State::Unsynced(0xff));
+                    // Six ones right after a flag, then a zero: that's
+                    // another flag, sharing its first zero with the previous
+                    // flag's last. Still in sync.
+                    return Ok(State::Synced((0, Vec::with_capacity(self.max_size))));
                 }
 
                 // Remove partial flag.
